@@ -284,6 +284,11 @@ def k6(ctx, rid):
             calls = [o.data for o in ogs if o.kind == 'call']
             good = [x for x in calls if x.crate == 'pearl' and x.name in ('validation', 'bincode', 'from') and 'error::Error' in x.full]
             conv = [x for x in calls if x.name in ('into_bincode_if_unexpected_eof',)]
+            fwd = [x for x in calls if x not in good and x not in conv and x.fn.locals[x.dest[0]].get('h') == 'std::result::Result' and not x.dest[1]]
+            if fwd and len(fwd) + len(good) + len(conv) == len(calls):
+                # `Err(e) => Err(e)`: the error of a callee's Result handed on unchanged - the same as `?` (classified at its origin)
+                n -= 1
+                continue
             if (good or conv) and len(good) + len(conv) == len(calls):
                 ctx.ok(rid, key, f.where(bb), 'error built by %s' % (good + conv)[0].name)
             else:
